@@ -8,9 +8,11 @@ Import ListNotations.
 Definition ctx := (bytes * bytes)%type.
 Definition cev := ev bytes ctx (hargs ctx).
 Definition chandler := handler bytes ctx (hargs ctx) bytes.
-Record hspec := { h_tag : bytes; h_accept : bool }.
+(* h_reply: what the client is to see when this handler's handle answers (TFTP: the file content;
+   HTTP: status and body, e.g. "404:" for a bare 404) *)
+Record hspec := { h_tag : bytes; h_accept : bool; h_reply : bytes }.
 Definition mk_handler (s : hspec) : chandler :=
-  {| prepare := fun u => (h_tag s, u); can := fun _ _ => h_accept s; handle := fun _ => h_tag s |}.
+  {| prepare := fun u => (h_tag s, u); can := fun _ _ => h_accept s; handle := fun _ => h_reply s |}.
 
 Inductive proto := TFTP | HTTP | TFTP_FILE | HTTP_FILE.
 
@@ -169,7 +171,7 @@ Definition dec_pair (x : sx) : option (bytes * bytes) := match x with L [B a; B 
 Definition dec_cmsg (x : sx) : option cmsg :=
   match x with L [m; B d] => obind (asBool m) (fun m => Some {| cm_match := m; cm_data := d |}) | _ => None end.
 Definition dec_hspec (x : sx) : option hspec :=
-  match x with L [B t; a] => obind (asBool a) (fun a => Some {| h_tag := t; h_accept := a |}) | _ => None end.
+  match x with L [B t; a; B r] => obind (asBool a) (fun a => Some {| h_tag := t; h_accept := a; h_reply := r |}) | _ => None end.
 Definition dec_proto (x : sx) : option proto :=
   match x with
   | I 0%Z => Some TFTP | I 1%Z => Some HTTP | I 2%Z => Some TFTP_FILE | I 3%Z => Some HTTP_FILE | _ => None
